@@ -96,7 +96,6 @@ def project(case, res):
 def observe(case):
     from valjean.gavroche.diagnostics.stats import TestStatsTestsByLabelsException
     task_results = build_task_results(case)
-    snapshot = json.dumps(case, sort_keys=True)
     try:
         res = make_test(case, task_results).evaluate()
         obs = project(case, res)
@@ -105,7 +104,6 @@ def observe(case):
     except Exception as ex:   # pylint: disable=broad-except
         obs = dict(raised=True, exc='%s: %s' % (type(ex).__name__, ex), error=False, classify=[], success=False, rows=[],
                    missing=0, oracles=[])
-    assert json.dumps(case, sort_keys=True) == snapshot
     return obs
 
 
